@@ -1,7 +1,6 @@
 /-
 Invariants of the block-manager model (Model/BlockMgr.lean), each proved per transition.
-(The file name keeps the `BlockDl` family prefix required for C16's helper files out of scope:
-it is imported by Props/C16.lean only.)
+(C16 helper file, imported by Props/C16.lean only.)
 -/
 import BRV.Model.BlockMgr
 
